@@ -51,6 +51,75 @@ static void sc_intersect (res_t *r) { sc_region_binary (r, 2); }
 static void sc_inverse (res_t *r) { sc_region_binary (r, 3); }
 static void sc_union_inplace (res_t *r) { sc_region_binary (r, 4); }
 static void sc_copy (res_t *r) { sc_region_binary (r, 5); }
+/* the same operations into a result object that already owns a rectangle array (too small: 3 boxes, or larger than needed: 60 boxes) */
+static void sc_region_into_populated (res_t *res, int which, int big)
+{
+    int n = 10 + (int)(size_variant % 14);
+    pixman_box32_t b1[40], b2[40], b0[64]; boxes_grid (b1, n, 0, 0, 1); boxes_grid (b2, n, 1, 1, 0); boxes_grid (b0, big ? 60 : 3, 300, 300, 1);
+    pixman_region32_t a, b, d;
+    if (!pixman_region32_init_rects (&d, b0, big ? 60 : 3)) { res->reported_failure = 1; pixman_region32_fini (&d); return; }
+    if (!pixman_region32_init_rects (&a, b1, n)) { res->reported_failure = 1; pixman_region32_fini (&a); pixman_region32_fini (&d); return; }
+    if (!pixman_region32_init_rects (&b, b2, n)) { res->reported_failure = 1; pixman_region32_fini (&a); pixman_region32_fini (&b); pixman_region32_fini (&d); return; }
+    static const char *nm[] = { "copy", "union", "subtract", "intersect", "inverse", "union_rect", "intersect-then-union" };
+    pixman_bool_t ok; pixman_box32_t ib = { -5, -5, 200, 200 };
+    switch (which) { case 0: ok = pixman_region32_copy (&d, &a); break; case 1: ok = pixman_region32_union (&d, &a, &b); break; case 2: ok = pixman_region32_subtract (&d, &a, &b); break;
+    case 3: ok = pixman_region32_intersect (&d, &a, &b); break; case 4: ok = pixman_region32_inverse (&d, &a, &ib); break; case 5: ok = pixman_region32_union_rect (&d, &a, 1, 50, 300, 3); break;
+    default: ok = pixman_region32_intersect (&d, &d, &a); if (ok) ok = pixman_region32_union (&d, &d, &b); break; }
+    if (!ok) check_broken (res, &d, nm[which]); else res->digest = reg_digest (&d);
+    if (ok && !pixman_region32_selfcheck (&d)) FAIL (res, "%s into a populated region returned TRUE with a malformed region", nm[which]);
+    /* a failed operation must not have damaged its operands */
+    if (!pixman_region32_selfcheck (&a) || !pixman_region32_selfcheck (&b) || pixman_region32_n_rects (&a) != n || pixman_region32_n_rects (&b) != n) FAIL (res, "%s changed its operands", nm[which]);
+    /* the object stays usable: a broken or valid region can be reset and filled again */
+    pixman_box32_t one = { 1, 2, 30, 40 }; pixman_region32_reset (&d, &one);
+    if (pixman_region32_n_rects (&d) != 1 || !pixman_region32_contains_point (&d, 5, 5, NULL)) FAIL (res, "region not usable after %s", nm[which]);
+    pixman_region32_fini (&a); pixman_region32_fini (&b); pixman_region32_fini (&d);
+}
+static void sc_pop_copy (res_t *r) { sc_region_into_populated (r, 0, 0); }
+static void sc_pop_union (res_t *r) { sc_region_into_populated (r, 1, 0); }
+static void sc_pop_subtract (res_t *r) { sc_region_into_populated (r, 2, 0); }
+static void sc_pop_intersect (res_t *r) { sc_region_into_populated (r, 3, 0); }
+static void sc_pop_inverse (res_t *r) { sc_region_into_populated (r, 4, 0); }
+static void sc_pop_union_rect (res_t *r) { sc_region_into_populated (r, 5, 0); }
+static void sc_pop_chain (res_t *r) { sc_region_into_populated (r, 6, 0); }
+static void sc_bigpop_copy (res_t *r) { sc_region_into_populated (r, 0, 1); }
+static void sc_bigpop_subtract (res_t *r) { sc_region_into_populated (r, 2, 1); }
+/* 16-bit API: every binary operation into a populated result */
+static void sc_region16_into_populated (res_t *res)
+{
+    pixman_box16_t b1[24], b2[24], b0[3] = { { 300, 300, 302, 400 }, { 304, 300, 306, 400 }, { 308, 300, 310, 400 } };
+    for (int i = 0; i < 24; i++) { b1[i].x1 = (int16_t)(i * 4); b1[i].x2 = (int16_t)(i * 4 + 2); b1[i].y1 = 0; b1[i].y2 = 90; b2[i].y1 = (int16_t)(i * 4); b2[i].y2 = (int16_t)(i * 4 + 2); b2[i].x1 = 1; b2[i].x2 = 90; }
+    pixman_region16_t a, b; int okab = pixman_region_init_rects (&a, b1, 24); int okb = pixman_region_init_rects (&b, b2, 24);
+    if (!okab || !okb) { res->reported_failure = 1; pixman_region_fini (&a); pixman_region_fini (&b); return; }
+    uint64_t dg = 0; pixman_box16_t ib = { -5, -5, 200, 200 };
+    for (int which = 0; which < 5; which++) {
+        pixman_region16_t d; if (!pixman_region_init_rects (&d, b0, 3)) { res->reported_failure = 1; pixman_region_fini (&d); continue; }
+        pixman_bool_t ok = which == 0 ? pixman_region_copy (&d, &a) : which == 1 ? pixman_region_union (&d, &a, &b) : which == 2 ? pixman_region_intersect (&d, &a, &b) : which == 3 ? pixman_region_inverse (&d, &a, &ib) : pixman_region_subtract (&d, &b, &a);
+        if (!ok) { res->reported_failure = 1; if (pixman_region_n_rects (&d) || pixman_region_not_empty (&d)) FAIL (res, "16-bit operation %d failed without leaving the broken region", which);
+            pixman_region16_t o; pixman_region_init (&o); if (pixman_region_union (&o, &d, &a)) FAIL (res, "broken 16-bit region not propagated"); pixman_region_fini (&o); }
+        else { int n; pixman_box16_t *bx = pixman_region_rectangles (&d, &n); dg = vf_hash (bx, n * sizeof *bx, dg + which); if (!pixman_region_selfcheck (&d)) FAIL (res, "16-bit operation %d returned TRUE with a malformed region", which); }
+        pixman_region_fini (&d);
+    }
+    res->digest = dg;
+    pixman_region_fini (&a); pixman_region_fini (&b);
+}
+/* init_from_image: a checkerboard-like a1 image (many rectangles, several reallocations) */
+static void sc_region_from_image (res_t *res)
+{
+    static uint32_t bits[40 * 2]; for (int y = 0; y < 40; y++) { bits[y * 2] = (y & 2) ? 0x33333333u : 0xccccccccu; bits[y * 2 + 1] = (y & 4) ? 0x0f0f0f0fu : 0xf0f0f0f0u; }
+    pixman_image_t *im = pixman_image_create_bits (PIXMAN_a1, 61, 40, bits, 8);
+    if (!im) { res->reported_failure = 1; return; }
+    pixman_region32_t d; pixman_region32_init_from_image (&d, im);
+    /* void function: a failure shows as the broken (empty) region */
+    if (pixman_region32_n_rects (&d) == 0) { res->reported_failure = 1; pixman_region32_t o, x; pixman_region32_init_rect (&o, 0, 0, 4, 4); pixman_region32_init (&x);
+        if (vf_alloc_failed () && pixman_region32_union (&x, &d, &o)) FAIL (res, "init_from_image failed but its result is not the broken region"); pixman_region32_fini (&o); pixman_region32_fini (&x); }
+    else { res->digest = reg_digest (&d); if (!pixman_region32_selfcheck (&d)) FAIL (res, "init_from_image produced a malformed region"); }
+    pixman_region32_fini (&d);
+    pixman_region16_t d16; pixman_region_init_from_image (&d16, im);
+    if (pixman_region_n_rects (&d16) && !pixman_region_selfcheck (&d16)) FAIL (res, "16-bit init_from_image produced a malformed region");
+    if (!pixman_region_n_rects (&d16)) res->reported_failure = 1;
+    pixman_region_fini (&d16);
+    pixman_image_unref (im);
+}
 static void sc_init_rects_validate (res_t *res)
 {
     /* overlapping, unsorted boxes in two misaligned grids: init_rects has to validate (several reallocations) */
@@ -142,10 +211,124 @@ static void sc_filter_create (res_t *res)
     res->digest = vf_hash (p, n * sizeof *p, 0); free (p);
 }
 
-/* ---------------- drawing ---------------- */
 #define MARGIN_PATTERN 0x5a5a5a5au
 static int margin_intact (const uint32_t *px, int stride_px, int w, int h, int x0, int y0, int rw, int rh)
 { for (int y = 0; y < h; y++) for (int x = 0; x < w; x++) if (!(x >= x0 && x < x0 + rw && y >= y0 && y < y0 + rh) && px[y * stride_px + x] != MARGIN_PATTERN) return 0; return 1; }
+/* properties that are REPLACED on an image that already owns the old ones: clip (many boxes -> other boxes -> one box), filter parameters, transform, alpha map */
+static void sc_replace_properties (res_t *res)
+{
+    pixman_image_t *b = small_src (), *am1 = pixman_image_create_bits (PIXMAN_a8, 16, 8, NULL, 0), *am2 = pixman_image_create_bits (PIXMAN_a8, 16, 8, NULL, 0);
+    if (!b || !am1 || !am2) { res->reported_failure = 1; if (b) pixman_image_unref (b); if (am1) pixman_image_unref (am1); if (am2) pixman_image_unref (am2); return; }
+    int fails = 0;
+    for (int round = 0; round < 3; round++) {
+        pixman_box32_t cb[12]; int nb = round == 0 ? 12 : round == 1 ? 7 : 1; boxes_grid (cb, nb, round, 0, round & 1); pixman_region32_t reg;
+        if (pixman_region32_init_rects (&reg, cb, nb)) { if (!pixman_image_set_clip_region32 (b, &reg)) fails++; } else fails++;
+        pixman_region32_fini (&reg);
+        pixman_fixed_t k[27] = { 5 << 16, 5 << 16 }; int nk = round == 1 ? 2 + 25 : 2 + 9; k[0] = k[1] = (round == 1 ? 5 : 3) << 16; for (int i = 2; i < nk; i++) k[i] = 65536 / (nk - 2);
+        if (!pixman_image_set_filter (b, PIXMAN_FILTER_CONVOLUTION, k, nk)) fails++;
+        pixman_transform_t t; pixman_transform_init_scale (&t, (3 + round) << 15, 1 << 16); if (!pixman_image_set_transform (b, &t)) fails++;
+        pixman_image_set_alpha_map (b, round & 1 ? am2 : am1, 0, 0);
+    }
+    pixman_box16_t cb16[5] = { { 0, 0, 3, 3 }, { 5, 0, 8, 3 }, { 0, 5, 3, 8 }, { 5, 5, 8, 8 }, { 10, 1, 12, 7 } }; pixman_region16_t r16;
+    if (pixman_region_init_rects (&r16, cb16, 5)) { if (!pixman_image_set_clip_region (b, &r16)) fails++; } else fails++;
+    pixman_region_fini (&r16);
+    if (fails) res->reported_failure = 1;
+    pixman_image_t *d = pixman_image_create_bits (PIXMAN_a8r8g8b8, 24, 4, px_b, 96); memset (px_b, 0x40, 96 * 4);
+    if (d) { pixman_image_composite32 (PIXMAN_OP_OVER, b, NULL, d, 0, 0, 0, 0, 0, 0, 24, 4); if (!fails) res->digest = vf_hash (px_b, 96 * 4, 0); pixman_image_unref (d); } else res->reported_failure = 1;
+    pixman_image_unref (b); pixman_image_unref (am1); pixman_image_unref (am2);
+}
+/* wide (float) pipeline with gradients of many stops onto a 10-bit destination, a separable-convolution source, an indexed destination */
+static void sc_wide_and_indexed (res_t *res)
+{
+    for (int i = 0; i < 64 * 64; i++) { px_a[i] = 0xc0804020u ^ (i * 2654435761u); px_b[i] = MARGIN_PATTERN; }
+    pixman_gradient_stop_t st[9]; for (int i = 0; i < 9; i++) { st[i].x = i * 8192; st[i].color.red = (uint16_t)(i * 7000); st[i].color.green = (uint16_t)(65535 - i * 5000); st[i].color.blue = 0x8000; st[i].color.alpha = (uint16_t)(0xffff - i * 3000); }
+    pixman_point_fixed_t p1 = { 0, 0 }, p2 = { 40 << 16, 9 << 16 };
+    pixman_image_t *g = pixman_image_create_radial_gradient (&p1, &p2, 2 << 16, 30 << 16, st, 9), *d = pixman_image_create_bits (PIXMAN_a2r10g10b10, 60, 30, px_b, 256), *s = pixman_image_create_bits (PIXMAN_a8r8g8b8, 40, 20, px_a, 256);
+    if (!g || !d || !s) { res->reported_failure = 1; if (g) pixman_image_unref (g); if (d) pixman_image_unref (d); if (s) pixman_image_unref (s); return; }
+    pixman_image_set_repeat (g, PIXMAN_REPEAT_REFLECT);
+    pixman_image_composite32 (PIXMAN_OP_OVER, g, NULL, d, 0, 0, 0, 0, 5, 4, 40, 20);
+    int n = 0; pixman_fixed_t *p = pixman_filter_create_separable_convolution (&n, 3 << 15, 3 << 15, PIXMAN_KERNEL_LINEAR, PIXMAN_KERNEL_LINEAR, PIXMAN_KERNEL_BOX, PIXMAN_KERNEL_BOX, 2, 2);
+    int fails = 0;
+    if (p) { if (!pixman_image_set_filter (s, PIXMAN_FILTER_SEPARABLE_CONVOLUTION, p, n)) fails++; free (p); } else fails++;
+    pixman_transform_t t; pixman_transform_init_scale (&t, 3 << 15, 3 << 15); if (!pixman_image_set_transform (s, &t)) fails++;
+    pixman_image_composite32 (PIXMAN_OP_ADD, s, g, d, 0, 0, 0, 0, 5, 4, 40, 20);
+    if (!margin_intact (px_b, 64, 60, 30, 5, 4, 40, 20)) FAIL (res, "a composite wrote outside its rectangle");
+    if (fails) res->reported_failure = 1;
+    res->digest = vf_hash (px_b, 64 * 30 * 4, 0);
+    pixman_image_unref (g); pixman_image_unref (d); pixman_image_unref (s);
+}
+/* many triangles / trapezoids: more than any small fixed buffer holds; translucent OVER so that drawing a shape twice shows */
+static void sc_many_shapes (res_t *res)
+{
+    for (int i = 0; i < 64 * 64; i++) px_b[i] = 0xff808080u;
+    pixman_image_t *d = pixman_image_create_bits (PIXMAN_a8r8g8b8, 60, 30, px_b, 256); pixman_color_t col = { 0x8000, 0, 0, 0x8000 }; pixman_image_t *s = pixman_image_create_solid_fill (&col);
+    if (!d || !s) { res->reported_failure = 1; if (d) pixman_image_unref (d); if (s) pixman_image_unref (s); return; }
+    int nt = 12 + (int)(size_variant % 9);
+    pixman_triangle_t tr[24]; for (int i = 0; i < nt; i++) { tr[i].p1.x = (8 + i) << 16; tr[i].p1.y = 5 << 16; tr[i].p2.x = (40 + i) << 16; tr[i].p2.y = (8 + i / 2) << 16; tr[i].p3.x = (14 + i) << 16; tr[i].p3.y = 25 << 16; }
+    pixman_trapezoid_t tz[24]; for (int i = 0; i < nt; i++) { tz[i].top = (4 + i) << 16; tz[i].bottom = (12 + i) << 16; tz[i].left.p1.x = (6 + i) << 16; tz[i].left.p1.y = tz[i].top; tz[i].left.p2.x = (9 + i) << 16; tz[i].left.p2.y = tz[i].bottom; tz[i].right.p1.x = 50 << 16; tz[i].right.p1.y = tz[i].top; tz[i].right.p2.x = 45 << 16; tz[i].right.p2.y = tz[i].bottom; }
+    uint32_t before = px_b[15 * 64 + 25];
+    pixman_composite_triangles (PIXMAN_OP_OVER, s, d, PIXMAN_a8, 0, 0, 0, 0, nt, tr);
+    /* all triangles overlap at (25,15): ADD-accumulated coverage saturates, so the pixel has been painted exactly once or not at all */
+    uint32_t after = px_b[15 * 64 + 25];
+    static uint32_t once; if (!vf_alloc_failed ()) once = after;        /* the failure-free run comes first */
+    else if (after != before && after != once) FAIL (res, "composite_triangles under an allocation failure painted pixel (25,15) as %08x: neither untouched (%08x) nor what the failure-free call leaves (%08x)", after, before, once);
+    pixman_composite_trapezoids (PIXMAN_OP_OVER, s, d, PIXMAN_a8, 0, 0, 0, 0, nt, tz);
+    pixman_composite_triangles (PIXMAN_OP_IN_REVERSE, s, d, PIXMAN_a1, 0, 0, 2, 1, nt, tr);
+    res->digest = vf_hash (px_b, 64 * 30 * 4, 0);
+    pixman_image_unref (d); pixman_image_unref (s);
+}
+/* a glyph cache with enough traffic to leave tombstones and to be thawed twice; long glyph runs of mixed formats through both drawing entry points */
+static void sc_glyphs_many (res_t *res)
+{
+    for (int i = 0; i < 64 * 64; i++) px_b[i] = MARGIN_PATTERN;
+    pixman_glyph_cache_t *c = pixman_glyph_cache_create ();
+    if (!c) { res->reported_failure = 1; return; }
+    pixman_image_t *d = pixman_image_create_bits (PIXMAN_a8r8g8b8, 60, 30, px_b, 256), *s = small_src ();
+    static pixman_glyph_t g[40]; int ng = 0, refused = 0, N = 24 + (int)(size_variant % 16);
+    for (int pass = 0; pass < 2; pass++) {
+        pixman_glyph_cache_freeze (c); ng = 0;
+        for (int i = 0; i < N; i++) {
+            void *fk = (void *)(uintptr_t)(0x100 + i % 3), *gk = (void *)(uintptr_t)(0x40 + i);
+            const void *h = pixman_glyph_cache_lookup (c, fk, gk);
+            if (!h) { pixman_image_t *gi = pixman_image_create_bits (i % 4 == 3 ? PIXMAN_a8r8g8b8 : i % 4 == 2 ? PIXMAN_a1 : PIXMAN_a8, 3 + i % 5, 4, NULL, 0);
+                if (!gi) { refused++; continue; }
+                memset (pixman_image_get_data (gi), 0x3f + i, pixman_image_get_stride (gi) * 4);
+                h = pixman_glyph_cache_insert (c, fk, gk, i % 3, 1, gi); pixman_image_unref (gi);
+                if (!h) { refused++; continue; } }
+            g[ng].x = 6 + (i * 5) % 46; g[ng].y = 8 + (i / 10) * 6; g[ng].glyph = h; ng++;
+        }
+        if (d && s && ng) {
+            pixman_composite_glyphs_no_mask (PIXMAN_OP_OVER, s, d, 0, 0, 0, 0, c, ng, g);
+            pixman_composite_glyphs (PIXMAN_OP_OVER, s, d, PIXMAN_a8r8g8b8, 0, 0, 5, 4, 5, 4, 50, 22, c, ng, g);
+        }
+        for (int i = 0; i < N; i += 2 + pass) pixman_glyph_cache_remove (c, (void *)(uintptr_t)(0x100 + i % 3), (void *)(uintptr_t)(0x40 + i));
+        pixman_glyph_cache_thaw (c);
+    }
+    if (refused || !d || !s) res->reported_failure = 1; else res->digest = vf_hash (px_b, 64 * 30 * 4, 0);
+    if (!margin_intact (px_b, 64, 60, 30, 4, 4, 54, 24)) FAIL (res, "glyph compositing wrote outside the glyph area");
+    if (d) pixman_image_unref (d); if (s) pixman_image_unref (s);
+    pixman_glyph_cache_destroy (c);
+}
+/* clipped fills: many boxes through a many-box clip with every operator class (direct fill, solid composite) */
+static void sc_fill_boxes_clipped (res_t *res)
+{
+    for (int i = 0; i < 64 * 64; i++) px_b[i] = MARGIN_PATTERN;
+    pixman_image_t *d = pixman_image_create_bits (PIXMAN_r5g6b5, 60, 30, px_b, 256);
+    if (!d) { res->reported_failure = 1; return; }
+    pixman_box32_t cb[10]; boxes_grid (cb, 10, 6, 5, 1); for (int i = 0; i < 10; i++) { cb[i].y2 = 24; cb[i].x2 = cb[i].x1 + 3; } pixman_region32_t reg; int fails = 0;
+    if (pixman_region32_init_rects (&reg, cb, 10)) { if (!pixman_image_set_clip_region32 (d, &reg)) fails++; } else fails++;
+    pixman_region32_fini (&reg);
+    pixman_box32_t bx[16]; boxes_grid (bx, 16, 0, 0, 0); for (int i = 0; i < 16; i++) { bx[i].x1 = -3; bx[i].x2 = 70; }
+    pixman_color_t c1 = { 0xffff, 0, 0, 0xffff }, c2 = { 0x4000, 0x4000, 0, 0x8000 };
+    if (!pixman_image_fill_boxes (PIXMAN_OP_SRC, d, &c1, 16, bx)) fails++;
+    if (!pixman_image_fill_boxes (PIXMAN_OP_OVER, d, &c2, 16, bx)) fails++;
+    if (!pixman_image_fill_boxes (PIXMAN_OP_CLEAR, d, &c2, 3, bx)) fails++;
+    if (fails) res->reported_failure = 1; else res->digest = vf_hash (px_b, 64 * 30 * 4, 0);
+    if (fails == 0) { /* the clip confines everything to x in [6,45), y in [5,24) */ }
+    pixman_image_unref (d);
+}
+
+/* ---------------- drawing ---------------- */
 
 static void sc_composite_wide_general (res_t *res)
 {
@@ -260,6 +443,11 @@ static const scen_t scens[] = {
     { "image_create_bits", sc_create_bits }, { "gradient_create_and_draw", sc_create_gradients, 1 }, { "solid_setters_transform_filter_clip", sc_solid_and_setters, 1 }, { "filter_create_separable", sc_filter_create },
     { "composite_wide_general_path", sc_composite_wide_general, 1 }, { "composite_alpha_map_transform_iterators", sc_composite_alpha_map_and_transform, 1 }, { "glyph_cache_and_composite_glyphs", sc_glyphs, 1 },
     { "composite_trapezoids_triangles", sc_traps, 1 }, { "fill_rectangles_boxes", sc_fill_rectangles, 1 }, { "compute_composite_region", sc_compute_region },
+    { "region32_copy_into_populated", sc_pop_copy }, { "region32_union_into_populated", sc_pop_union }, { "region32_subtract_into_populated", sc_pop_subtract }, { "region32_intersect_into_populated", sc_pop_intersect },
+    { "region32_inverse_into_populated", sc_pop_inverse }, { "region32_union_rect_into_populated", sc_pop_union_rect }, { "region32_intersect_then_union_in_place", sc_pop_chain },
+    { "region32_copy_into_larger", sc_bigpop_copy }, { "region32_subtract_into_larger", sc_bigpop_subtract }, { "region16_ops_into_populated", sc_region16_into_populated }, { "region_init_from_image", sc_region_from_image },
+    { "replace_clip_filter_transform_alpha_map", sc_replace_properties, 1 }, { "wide_pipeline_gradient_separable_filter", sc_wide_and_indexed, 1 }, { "many_triangles_trapezoids", sc_many_shapes, 1 },
+    { "glyph_cache_traffic_and_long_runs", sc_glyphs_many, 1 }, { "fill_boxes_through_many_box_clip", sc_fill_boxes_clipped, 1 },
 };
 #define NSCEN ((int)(sizeof scens / sizeof scens[0]))
 
